@@ -1,4 +1,4 @@
-From TN Require Export Proofs.ArithP Model.Tools.
+From TN Require Export Proofs.ArithP Model.Tools Model.Create.
 
 Section ToolsP.
 Variable K : Ops.
@@ -128,5 +128,95 @@ Theorem select_sound k d' g (cs : net) c idx i :
   nth_error cs k = Some c -> nth_error idx k = Some i ->
   eval (select_net k d' g cs) idx = eval cs (upd k idx (g i)).
 Proof. apply mode_reidx_sound. Qed.
+
+
+(* ---- cat of two tensors along mode k ---- *)
+Lemma chain_upd (cs : net) : forall k r (c c' : score K), nth_error cs k = Some c ->
+  rl c' = rl c -> rr c' = rr c -> chain r (upd k cs c') = chain r cs.
+Proof.
+  induction cs as [|a cs IH]; intros [|k] r c c' H E1 E2; simpl in *; try discriminate.
+  - injection H as ->. rewrite E1, E2. reflexivity.
+  - f_equal. eapply IH; eauto.
+Qed.
+
+Lemma sshape_upd (cs : net) : forall k (c' : score K), sshape (upd k cs c') = upd k (sshape cs) (dm c').
+Proof. induction cs as [|a cs IH]; intros [|k] c'; simpl; auto. f_equal. apply IH. Qed.
+
+Lemma upd_same {A} (l : list A) : forall k x, nth_error l k = Some x -> upd k l x = l.
+Proof. induction l as [|a l IH]; intros [|k] x H; simpl in *; try discriminate; auto.
+  - injection H as ->. reflexivity.
+  - f_equal. auto. Qed.
+
+Lemma nth_error_upd {A} (l : list A) : forall k x y, nth_error l k = Some y -> nth_error (upd k l x) k = Some x.
+Proof. induction l as [|a l IH]; intros [|k] x y H; simpl in *; try discriminate; auto. eapply IH; eauto. Qed.
+
+Lemma good_at_mode k (f : score K -> score K) (cs : net) :
+  (forall c, rl (f c) = rl c /\ rr (f c) = rr c) -> good K cs -> good K (at_mode k f cs).
+Proof.
+  intros Hf [Hne Hc]. unfold at_mode. destruct (nth_error cs k) as [c|] eqn:E; [|split; auto].
+  destruct (Hf c) as [E1 E2]. split.
+  - destruct cs; [congruence|]. destruct k; simpl; discriminate.
+  - rewrite (upd_head_rl cs k c (f c) E E1). rewrite (chain_upd cs k _ c (f c) E E1 E2). exact Hc.
+Qed.
+
+Lemma embed_shape k off tot (cs : net) c : nth_error cs k = Some c ->
+  sshape (embed_net k off tot cs) = upd k (sshape cs) tot.
+Proof. intros H. unfold embed_net, at_mode. rewrite H. rewrite sshape_upd. reflexivity. Qed.
+
+Lemma in_range_nth sh : forall idx k i d, in_range sh idx = true -> nth_error idx k = Some i ->
+  nth_error sh k = Some d -> (i < d)%nat.
+Proof.
+  induction sh as [|e sh IH]; intros [|j idx] [|k] i d Hr Hi Hd; simpl in *; try discriminate.
+  - injection Hi as ->. injection Hd as ->. apply andb_true_iff in Hr. apply Nat.ltb_lt. tauto.
+  - apply andb_true_iff in Hr. eapply IH; eauto. tauto.
+Qed.
+
+Theorem cat2_sound k (a b cs : net) ca cb :
+  nth_error a k = Some ca -> nth_error b k = Some cb -> good K a -> good K b ->
+  upd k (sshape a) O = upd k (sshape b) O -> cat2_net k a b = Some cs ->
+  sshape cs = upd k (sshape a) (dm ca + dm cb)%nat /\
+  forall idx i, in_range (sshape cs) idx = true -> nth_error idx k = Some i ->
+    eval cs idx = if (i <? dm ca)%nat then eval a idx else eval b (upd k idx (i - dm ca)%nat).
+Proof.
+  intros Ha Hb Ga Gb Hsh H. unfold cat2_net in H. rewrite Ha, Hb in H.
+  set (tot := (dm ca + dm cb)%nat) in *.
+  assert (Gea: good K (embed_net k 0 tot a)) by (apply good_at_mode; auto; intros; split; reflexivity).
+  assert (Geb: good K (embed_net k (dm ca) tot b)) by (apply good_at_mode; auto; intros; split; reflexivity).
+  destruct (add_net_sound K Kth _ _ cs Gea Geb H) as (G & S & E).
+  rewrite (embed_shape k 0 tot a ca Ha), (embed_shape k (dm ca) tot b cb Hb) in *.
+  assert (Hs2: upd k (sshape b) tot = upd k (sshape a) tot).
+  { clear - Hsh. revert Hsh. generalize (sshape a) (sshape b). intros l1.
+    revert k. induction l1 as [|x l1 IH]; intros [|k] [|y l2] H; simpl in *; try discriminate; auto.
+    - injection H as H. rewrite H. reflexivity.
+    - injection H as H1 H2. rewrite H1. f_equal. apply IH; auto. }
+  rewrite Hs2, bshape_same in S. injection S as S. split; [auto|].
+  intros idx i Hr Hi. rewrite E by (apply in_range_len_net; auto).
+  rewrite Hs2. rewrite <- S in Hr. rewrite !clip_in_range by assumption.
+  rewrite (embed_sound k 0 tot a ca idx i Ha Hi), (embed_sound k (dm ca) tot b cb idx i Hb Hi).
+  assert (Hlt: (i < tot)%nat).
+  { eapply (in_range_nth _ idx k i tot Hr Hi). apply nth_error_upd with (y := dm ca).
+    unfold sshape. rewrite nth_error_map, Ha. reflexivity. }
+  cbn [Nat.leb andb]. rewrite Nat.add_0_l, Nat.sub_0_r.
+  destruct (Nat.ltb_spec i (dm ca)) as [H1|H1].
+  - rewrite (upd_same idx k i Hi).
+    destruct (Nat.leb_spec (dm ca) i); [lia|]. cbn [andb]. ring.
+  - destruct (Nat.leb_spec (dm ca) i); [|lia]. destruct (Nat.ltb_spec i (dm ca + dm cb)); [|unfold tot in Hlt; lia].
+    cbn [andb]. ring.
+Qed.
+
+
+(* ---- creation routines ---- *)
+Theorem eye_sound n m i j : (j < m)%nat ->
+  eval (eye_net (K:=K) n m) [i; j] = delta i j /\ sshape (eye_net (K:=K) n m) = [n; m].
+Proof.
+  intros Hj. split; [|reflexivity]. unfold eval, eye_net. cbn [rl]. rewrite (sumn_1 Kth).
+  cbn [evalv rr sl]. rewrite (sumn_ext _ _ (fun q => delta i q * delta q j)).
+  - apply (sumn_delta_r Kth). exact Hj.
+  - intros q _. rewrite (sumn_1 Kth). unfold ones. ring.
+Qed.
+
+Theorem full_sound (c : K) sh idx : sh <> [] -> length idx = length sh ->
+  eval (full_net c sh) idx = c /\ sshape (full_net c sh) = sh.
+Proof. intros Hne Hl. destruct (const_net_sound K Kth c sh Hne) as (_ & S & E). split; auto. Qed.
 
 End ToolsP.
